@@ -280,6 +280,20 @@ func (sc *splitCtx) evalSplit(req coding, text string, ref byte) {
 		res.Count("toomany")
 		if err == nil {
 			sc.viol("C07", "C07.too-many-parts-not-refused", fmt.Sprintf("%d units need %d parts but no error was returned (total octet %d)", len(units), len(cuts), byteAt(parts, 4)), []string{opText})
+			// C06: do the parts that came back instead carry the text under the coding that was reported?
+			var joined []byte
+			for _, p := range parts {
+				if len(p) > 6 {
+					joined = append(joined, p[6:]...)
+				}
+			}
+			whole, okd := "", false
+			if rc, okc := codingByNum(req.proto, actual); okc && rc.name != "gsmpacked" {
+				whole, okd = refDecode(rc.name, joined)
+			}
+			if !okd || whole != text {
+				sc.viol("C06", "C06.content-lost", fmt.Sprintf("a message needing %d parts came back as %d parts under reported coding %d whose payloads do not decode to the text", len(cuts), len(parts), actual), []string{opText})
+			}
 		}
 		return
 	}
